@@ -1,6 +1,6 @@
 //! Bounded stand-in / failing-input search for unit U8 (union-find) — NOT a proof.
 //! host: src/egraph/find.rs
-//! Bound: 30000 pseudo-random forests (fixed seed) over at most 4 ids and slots $0..$2, every start id,
+//! Bound: 30000 pseudo-random forests (fixed seed) over at most 4 ids and slots $0..$2 (leaders may have lost slots their followers still mention), every start id,
 //! compared with an independent BTreeMap implementation of "follow the entries and compose the maps".
 use crate::*;
 use super::*;
@@ -43,7 +43,9 @@ pub fn run(only: &[String]) -> Vec<String> {
         for j in 0..n {
             let root = j == 0 || rng.next(3) == 0;
             if root {
-                forest.push((j, slots[j].iter().map(|s| (*s, *s)).collect()));
+                // a leader's own entry is the identity on its CURRENT slots, which may be fewer than the slots its
+                // followers' entries still mention (the class lost a redundant slot after they were written)
+                forest.push((j, slots[j].iter().filter(|_| rng.next(4) != 0).map(|s| (*s, *s)).collect()));
             } else {
                 let p = rng.next(j as u32) as usize;
                 // injective partial map from (some of) slots[p] to slots[j]
